@@ -9,8 +9,10 @@ Granularity. asyncio is cooperative; the only places where a state method can be
 owns `transfer._state_lock` are the `await`s of `_cancel_transfer_tasks` (waiting for cancelled tasks
 to finish, state.py:146-147) and of `_remove_local_file` (aiofiles → executor, state.py:27-39), and
 the listeners awaited by `Transfer.transition` (model.py:222-237: the new state is assigned, then
-each listener is awaited — `TransferStateListener` is a public protocol, state.py:42-46, so a
-listener may suspend). A *slow* step is one the environment finishes later (`XOp.resume`); a step that is
+each listener of `state_listeners` is awaited in registration order with `(old_state.VALUE,
+self.state.VALUE)` — the second component is read again for every listener; `TransferStateListener`
+is a public protocol, state.py:42-46, so any listener may suspend, and `TransferManager.add` puts the
+manager itself first in the list, manager.py:342). A *slow* step is one the environment finishes later (`XOp.resume`); a step that is
 not slow finishes before anything else is observed. Between two ops everything that can run has
 run (the harness lets the loop settle), so lock hand-over (`asyncio.Lock` is FIFO: a released lock
 goes to the oldest waiter, and a newcomer queues behind existing waiters) is part of the op that
@@ -72,24 +74,32 @@ structure Cfg where
   dir : Dir
   slowCancel : Bool     -- cancelled tasks need an environment step to finish
   slowFs : Bool         -- file system calls need an environment step to finish
-  slowListener : Bool := false   -- a state listener suspends before it returns
+  /-- `transfer.state_listeners` in registration order: `true` = that listener suspends before it
+  returns (an environment step lets it return), `false` = it returns without the environment -/
+  listeners : List Bool := [false]
   mode : Mode := .current
 deriving Repr, DecidableEq
 
-/-- Ghost trace (newest first): who did what. `event` is what a `TransferStateListener` receives. -/
+/-- Ghost trace (newest first): who did what. `trans` is the assignment `self.state = state` of
+`Transfer.transition`; `event id li old new` is what listener number `li` of `state_listeners`
+receives. -/
 inductive Item
   | eff (id : Nat) (e : Eff)
-  | event (id : Nat) (old new : St)
+  | trans (id : Nat) (old new : St)
+  | event (id : Nat) (li : Nat) (old new : St)
   | ret (id : Nat) (ok : Bool)
 deriving Repr, DecidableEq
 
 /-- The lock holder, suspended: in front of the first effect of `rest` (a slow step), or — when
-`notified` — inside a listener, after `Transfer.transition` has assigned the new state. -/
+`notified` — inside listener number `pos`, after `Transfer.transition` has assigned the new state
+(`old` = its local `old_state`). -/
 structure Pending where
   call : Call
   target : St
   rest : List Eff
   notified : Bool := false
+  old : St := .virgin
+  pos : Nat := 0
 deriving Repr, DecidableEq
 
 structure XState where
@@ -129,20 +139,27 @@ def applyEff (cfg : Cfg) (c : Call) (now : Nat) (f : Fields) : Eff → Fields
   | .resetProgressVars => { f with bytes := 0 }
   | .resetLocalVars => { f with localPath := false, filesizeSet := false }
 
+/-- The listener loop of `Transfer.transition` (model.py:234-237) from listener number `pos` on
+(`gs` = the listeners not yet told): each is awaited with `(old_state.VALUE, self.state.VALUE)` —
+the state is **read again** for every listener; a listener that suspends leaves the caller as the
+lock holder inside it. After the last one: `return True`, and leaving the `async with` releases the
+lock. -/
+def notifyFrom (c : Call) (old : St) : List Bool → Nat → XState → XState
+  | [], _, x => { x with holder := none, trace := .ret c.id true :: x.trace }
+  | g :: gs, pos, x =>
+    let x' := { x with trace := .event c.id pos old x.cur :: x.trace }
+    if g then { x' with holder := some ⟨c, x.cur, [], true, old, pos⟩ }
+    else notifyFrom c old gs (pos + 1) x'
+
 /-- The body of a state method from its first remaining effect on: run effects until one blocks
 (`force` = the first one is the slow step that has just finished), then
-`await self.transfer.transition(Target(self.transfer)); return True` (leaving the `async with`
-releases the lock). -/
+`await self.transfer.transition(Target(self.transfer)); return True`. -/
 def runEffs (cfg : Cfg) (c : Call) (t : St) : List Eff → Bool → XState → XState
   | [], _, x =>
-    -- Transfer.transition: `self.state = state`, then the listeners are awaited with (old, new)
-    if cfg.slowListener then
-      { x with cur := t, holder := some ⟨c, t, [], true⟩, trace := .event c.id x.cur t :: x.trace }
-    else
-      { x with cur := t, holder := none,
-               trace := .ret c.id true :: .event c.id x.cur t :: x.trace }
+    -- Transfer.transition: `old_state = self.state; self.state = state`, then the listener loop
+    notifyFrom c x.cur cfg.listeners 0 { x with cur := t, trace := .trans c.id x.cur t :: x.trace }
   | e :: es, force, x =>
-    if !force && blocks cfg x.f e then { x with holder := some ⟨c, t, e :: es, false⟩ }
+    if !force && blocks cfg x.f e then { x with holder := some { call := c, target := t, rest := e :: es } }
     else runEffs cfg c t es false
       { x with f := applyEff cfg c x.now x.f e, trace := .eff c.id e :: x.trace }
 
@@ -201,8 +218,8 @@ def step (cfg : Cfg) (x : XState) : XOp → XState
     | none => x
     | some p =>
       let x' :=
-        if p.notified then      -- the listener returns; `return True`; the lock is released
-          { x with holder := none, trace := .ret p.call.id true :: x.trace }
+        if p.notified then      -- listener `p.pos` returns; the loop goes on with the next one
+          notifyFrom p.call p.old (cfg.listeners.drop (p.pos + 1)) (p.pos + 1) x
         else runEffs cfg p.call p.target p.rest true x
       match x'.holder with
       | some _ => x'
@@ -216,8 +233,31 @@ def run (cfg : Cfg) (x : XState) (ops : List XOp) : XState := ops.foldl (step cf
 /-- a transfer in state `s` with fields `f`, lock free, nothing pending -/
 def init (s : St) (f : Fields) : XState := { cur := s, f := f }
 
-/-- the `(old, new)` pairs listeners were given, oldest first -/
+/-- the `(old, new)` pairs listeners were given (all listeners), oldest first -/
 def events (x : XState) : List (St × St) :=
-  x.trace.reverse.filterMap fun | .event _ a b => some (a, b) | _ => none
+  x.trace.reverse.filterMap fun | .event _ _ a b => some (a, b) | _ => none
+
+/-- the pair a trace item gave to listener number `li`, if it is such an item -/
+def Item.toldTo (li : Nat) : Item → Option (St × St)
+  | .event _ l a b => if l = li then some (a, b) else none
+  | _ => none
+
+/-- the state change a trace item is, if it is one -/
+def Item.change : Item → Option (St × St)
+  | .trans _ a b => some (a, b)
+  | _ => none
+
+/-- the `(old, new)` pairs listener number `li` was given, oldest first -/
+def told (li : Nat) (x : XState) : List (St × St) := x.trace.reverse.filterMap (Item.toldTo li)
+
+/-- the state changes the transfer made (`self.state = state`), oldest first -/
+def transitions (x : XState) : List (St × St) := x.trace.reverse.filterMap Item.change
+
+/-- Reading a list of `(old, new)` pairs as a walk that starts in `s`: `some e` = every pair starts
+where the previous one ended (the first one in `s`) and the walk ends in `e`; `none` = some pair
+does not start where the previous one ended. -/
+def follows (s : St) : List (St × St) → Option St
+  | [] => some s
+  | (a, b) :: r => if a = s then follows b r else none
 
 end AioslskVerif.Transfer
